@@ -21,7 +21,10 @@ EXPLANATION = (
     "over [0, inf) (equity is a sum of strictly positive terms, initialised 0); the raise guard of _check_margin_level "
     "is evaluated on every cell of that range and on the 'nothing borrowed' sentinel: every computed cell below the "
     "requirement must raise, the sentinel must not. C10.4: the threshold compared with equals the scale factor. "
-    "That equity and used margin are valued correctly at the last prices is arithmetic and is not claimed."
+    "C10.7 'at the last prices' (freshness, structural part only): every bar event unconditionally replaces the last "
+    "bar of its pair, the price readers read that bar's close, and any derived state written by a reader (a memo) is "
+    "invalidated by every bar event, wholesale or in both orientations of the pair. That equity and used margin are "
+    "summed correctly from those prices is arithmetic and is not claimed."
 )
 TRUSTED = ["CPython ast parser", "sa.cfg statement CFG", "sa.cells guard evaluator", "mypy callee resolution"]
 
@@ -393,7 +396,89 @@ def _reach_avoiding(src, dst, avoid) -> bool:
     return False
 
 
+PRICES = "basana.backtesting.prices.Prices"
+
+
+def _self_attr_root(e: ast.AST):
+    """self.X for a target like self.X, self.X[k], self.X.y"""
+    cur = e
+    while isinstance(cur, (ast.Subscript, ast.Attribute)):
+        if isinstance(cur, ast.Attribute) and isinstance(cur.value, ast.Name) and cur.value.id == "self":
+            return cur.attr
+        cur = cur.value
+    return None
+
+
+def rule_price_freshness(ctx: Ctx) -> None:
+    """'valued at the last prices': what the price readers return is a function of the last bar per pair.  Any *derived* state
+    (an attribute of Prices written by a reader: a memo / cache) must be invalidated by every bar event -- wholesale, or by key in
+    both orientations of the pair, since convert() serves (a, b) from Pair(a, b) and from Pair(b, a)."""
+    from .. import norm as N
+    methods = ctx.repo.methods_of(PRICES)
+    ctx.require("on_bar_event" in methods and "convert" in methods and "get_price" in methods, "C10.7: Prices lost on_bar_event/convert/get_price")
+    obe = methods["on_bar_event"]
+    ctx.analysed_funcs.update(m.qualname for m in methods.values())
+    ev = obe.params[1]
+    prim = [s for s in A.stores(obe) if isinstance(s.target, ast.Subscript) and _self_attr_root(s.target) is not None and isinstance(s.node, ast.Assign)
+            and N.canon(N.expand(obe, s.target.slice)) == f"{ev}.bar.pair" and N.canon(N.expand(obe, s.node.value)) == f"{ev}.bar"]
+    ctx.check(len(prim) == 1 and not any(isinstance(a, (ast.If, ast.Try, ast.For, ast.While)) for a in A.ancestors(prim[0].stmt)), "C10.7",
+              "every bar event replaces the last bar of its pair, unconditionally", obe, prim[0].stmt if prim else obe.node,
+              "self._last_bars[event.bar.pair] = event.bar", "the last bar is not recorded for every bar event: prices used for the margin "
+              "check can lag behind the last price", key_text="last bar recorded")
+    primary = _self_attr_root(prim[0].target) if prim else None
+    for nm in ("get_price", "convert", "get_bid_ask"):
+        fn = methods.get(nm)
+        if fn is None:
+            continue
+        reads = [c for c in A.func_calls(fn) if (A.call_name(c) or "") == f"self.{primary}.get"] + \
+                [x for x in C.walk_shallow(fn.node) if isinstance(x, ast.Subscript) and A.dotted(x.value) == f"self.{primary}" and isinstance(x.ctx, ast.Load)]
+        closes = [x for x in C.walk_shallow(fn.node) if isinstance(x, ast.Attribute) and x.attr == "close"]
+        ctx.check(bool(reads) and bool(closes), "C10.7", f"Prices.{nm} reads the close of the last bar", fn, fn.node, f"self.{primary}.get(pair).close",
+                  f"Prices.{nm} no longer reads the last bar's close", key_text=f"{nm} reads last bar")
+    # derived state
+    derived = {}
+    for nm, fn in methods.items():
+        if nm in ("__init__", "on_bar_event"):
+            continue
+        for s in A.stores(fn):
+            a = _self_attr_root(s.target)
+            if a is not None:
+                derived.setdefault(a, []).append((fn, s))
+    ctx.count("C10.7:derived attributes of Prices", len(derived))
+    for attr, writers in sorted(derived.items()):
+        fnw, sw = writers[0]
+        inval = [s for s in A.stores(obe) if _self_attr_root(s.target) == attr]
+        top = [s for s in inval if not any(isinstance(a, (ast.If, ast.Try, ast.For, ast.While)) for a in A.ancestors(s.stmt))]
+        wholesale = [s for s in top if (s.kind == "mutcall" and isinstance(s.node, ast.Call) and isinstance(s.node.func, ast.Attribute) and s.node.func.attr == "clear")
+                     or (isinstance(s.node, (ast.Assign, ast.AnnAssign)) and A.dotted(s.target) == f"self.{attr}"
+                         and ast.unparse(s.node.value) in ("{}", "dict()", "[]", "None", "set()"))]
+        if wholesale:
+            ctx.ok("C10.7", f"derived state self.{attr} is dropped on every bar event", obe, wholesale[0].stmt, "wholesale invalidation")
+            continue
+        keys = []
+        for s in top:
+            if s.kind == "mutcall" and isinstance(s.node, ast.Call) and isinstance(s.node.func, ast.Attribute) and s.node.func.attr == "pop" and s.node.args:
+                keys.append(N.expand(obe, s.node.args[0]))
+            elif s.kind == "delete" and isinstance(s.target, ast.Subscript):
+                keys.append(N.expand(obe, s.target.slice))
+        ktxt = [N.canon(k) for k in keys]
+        pair_key = f"{ev}.bar.pair" in ktxt
+        both = any(isinstance(k, ast.Tuple) and len(k.elts) == 2 and N.canon(ast.Tuple(elts=[k.elts[1], k.elts[0]], ctx=ast.Load())) in ktxt for k in keys)
+        wkeys = [N.canon(N.expand(f2, s2.target.slice)) for f2, s2 in writers if isinstance(s2.target, ast.Subscript)]
+        if pair_key and all(any(isinstance(x, ast.Call) and (A.call_name(x) or "").endswith(f"self.{primary}.get") and N.canon(x.args[0]) == wk
+                                for x in C.walk_shallow(f2.node)) for wk in wkeys for f2, _ in writers[:1]):
+            ctx.ok("C10.7", f"derived state self.{attr} is keyed by the pair it was computed from and dropped with it", obe, obe.node, "by-pair invalidation")
+        elif both:
+            ctx.ok("C10.7", f"derived state self.{attr} is dropped in both orientations of the pair", obe, obe.node, "by-key invalidation, both orientations")
+        else:
+            ctx.bad("C10.7", f"derived state self.{attr} (written by Prices.{fnw.name}) is invalidated by every bar event", obe, sw.stmt,
+                    f"self.{attr} is filled in {fnw.name} under key(s) {wkeys} but on_bar_event invalidates {ktxt or 'nothing'}: a conversion served "
+                    "through the inverted pair (or any key not dropped) keeps the price of an earlier bar, so the margin check values "
+                    "collateral at a stale price instead of the last price", key_text=f"stale {attr}")
+
+
 def run(ctx: Ctx) -> None:
+    rule_price_freshness(ctx)
     rule_noloans(ctx)
     rule_installed(ctx)
     rule_sentinel(ctx)
